@@ -56,7 +56,11 @@ class Spec:
 def _sym_factor(pr, f):
     if isinstance(f, tuple):
         return pr._sym[f[0]][f[1]]
-    return pr._sym[f]
+    if f in pr._sym:
+        return pr._sym[f]
+    if f.startswith("der("):
+        return pr.der(f[4:-1])  # derivative symbol of an algebraic variable or a control
+    return pr.variable(f)  # extra constant input: its symbol is created by transcribe()
 
 
 def path_mx(pr, expr):
@@ -96,6 +100,12 @@ def bound_obj(b):
 
     if isinstance(b, tuple) and b and b[0] == "ts":
         return Timeseries(np.array(b[1], dtype=float), np.array(b[2], dtype=float))
+    if isinstance(b, tuple) and b and b[0] == "ts2":  # 2-D values given per column
+        return Timeseries(np.array(b[1], dtype=float), np.array(b[2], dtype=float).T)
+    if isinstance(b, tuple) and b and b[0] == "sc":
+        return b[1]
+    if isinstance(b, tuple) and b and b[0] == "vec":
+        return np.array(b[1], dtype=float)
     if isinstance(b, (list, np.ndarray)):
         return np.array(b, dtype=float)
     return b
